@@ -143,7 +143,8 @@ pub fn emit_tri(seed: u64, n: usize, max_n: usize) {
             let (u, v, nrm) = random_frame(&mut r);
             let sign = if r.coin() { 1.0 } else { -1.0 };
             let k = sign * if r.coin() { *r.pick(&[1.0, 2.0, 0.5, 4.0]) } else { r.uniform(0.1, 10.0) };
-            args.extend([nrm.0 * k, nrm.1 * k, nrm.2 * k]);
+            if i % 173 == 7 { args.extend([f64::NAN, f64::NAN, f64::NAN]); }      // no axis dominates: the wrappers project nothing
+            else { args.extend([nrm.0 * k, nrm.1 * k, nrm.2 * k]); }
             let o = if r.coin() { (0.0, 0.0, 0.0) } else { (r.cad(), r.cad(), r.cad()) };
             for &(x, y) in p.iter() { args.extend([o.0 + x * u.0 + y * v.0, o.1 + x * u.1 + y * v.1, o.2 + x * u.2 + y * v.2]); }
         } else {
